@@ -320,6 +320,10 @@ class DynMixin(object):
                 yield s, BuiltinV("dyn.mutator", self_val=o)
             elif kind == "N":
                 yield self.raise_(s, "AttributeError", "'NoneType' object has no attribute '%s'" % name)
+            elif kind == "num" and name == "is_integer":
+                # float.is_integer (int.is_integer exists from Python 3.12): whether the number is integral; non-finite floats are not
+                isint = z3.If(Val.is_F(t), z3.And(z3.IsInt(Val.fval(t)), z3.Not(NONFINITE(t))), z3.BoolVal(True))
+                yield s, BuiltinV("dyn.const", self_val=Sym("bool", isint))
             elif kind in ("num", "T"):
                 if name in ("real", "imag", "numerator", "denominator", "is_integer", "bit_length", "conjugate", "__name__"):
                     raise Unsupported("attribute %s of a number/type is not modelled" % name)
@@ -364,6 +368,9 @@ class DynMixin(object):
             yield st, dyn(z3.If(z3.And(Val.is_O(t), HASATTR(name)(Val.ref(t))), FLD(name)(Val.ref(t)), d))
             return
         raise Unsupported("getattr(dynamic, %r)" % name)
+
+    def bi_dyn_const(self, st, args, kw):
+        yield st, args[0]
 
     def dyn_hasattr(self, st, o, name):
         if name == "accepts":
